@@ -1099,7 +1099,7 @@ fn main() -> std::process::ExitCode {
         "C02",
         "one MIPS32 (big/little endian) or PPC32 instruction word from a template encoder with all fields random (1/12 uniformly random words), MIPS branches as (branch, delay slot) pairs, boundary-biased register/HI/LO/LR/CTR/CR state, total byte memory; lifted with translate_block, run with the reference IL interpreter and compared with a manual-derived interpreter that decodes the raw word. non-trivial = lifter accepted, reference models the word, no architectural exclusion; distinct = (ISA, mnemonic, register-aliasing pattern, immediate sign, alignment class, delay-slot mnemonic and interference class | rlwinm mask shape / BO / CR field)",
         Box::new(|_t: Tier| from_tape(280, decode_case)),
-        |t| t.pick(400_000, 40_000_000),
+        |t| t.pick(2_000_000, 60_000_000),
         check,
     );
     spec.render = render;
